@@ -72,7 +72,10 @@ static SessOut one_session(uint64_t seed, long idx, const std::string & path) {
             f->compressionLevel = late ? 3 : level; f->setDefaultLogContainerSize(C); f->writeRestorePoints = r.chance(1, 2);
             f->open(path.c_str(), std::ios_base::out);
             if (late) { busy(r, 2); f->compressionLevel = level; }
+            bool resize = r.chance(1, 3);     // the container size is set again after open() and half-way through (the setters are public and may be called at any time)
+            if (resize) f->setDefaultLogContainerSize(C);
             for (int i = 0; i < n; i++) {
+                if (resize && i == n / 2) f->setDefaultLogContainerSize(C);
                 ObjectHeaderBase * o;
                 if (sizes[i] == -2) { LinMessage2 * l = new LinMessage2; l->apiMajor = 1 + i % 2; l->objectTimeStamp = i; o = l; }
                 else if (sizes[i] < 0) { CanMessage * m = new CanMessage; m->id = i; m->objectTimeStamp = i; o = m; } else { AppText * t = new AppText; t->source = i; t->text.assign((size_t)sizes[i], 'w'); o = t; }
